@@ -2,7 +2,7 @@ SPECIFICATION Spec
 CONSTANTS
   Alphabet = {0, 1, 255}
   MaxLen = 2
-  Keys <- MCFourKeys
+  Keys <- MCThreeKeys
   Bounds <- MCBounds
   Vals = {0, 1}
   MaxBatch = 2
